@@ -4,9 +4,11 @@
 package main
 
 import (
+	"encoding/hex"
 	"encoding/json"
 	"fmt"
 	"os"
+	"reflect"
 	"strconv"
 	"strings"
 
@@ -18,6 +20,118 @@ type input struct {
 	Layout intoto.Layout `json:"layout"`
 	Names  []string      `json:"names"` // dictionary keys in the order given to the model
 	Dict   map[string]string `json:"dict"`
+	// Bytes: the strings of Layout and the values of Dict stand for BYTE strings that need not be valid UTF-8: every
+	// rune below 256 stands for that byte (so that the case survives its JSON file); observables are hex-encoded
+	Bytes bool `json:"bytes,omitempty"`
+}
+
+// mapStrings rewrites every string (and map key) reachable in v
+func mapStrings(v reflect.Value, f func(string) string) {
+	switch v.Kind() {
+	case reflect.String:
+		if v.CanSet() {
+			v.SetString(f(v.String()))
+		}
+	case reflect.Struct:
+		for i := 0; i < v.NumField(); i++ {
+			mapStrings(v.Field(i), f)
+		}
+	case reflect.Slice:
+		for i := 0; i < v.Len(); i++ {
+			mapStrings(v.Index(i), f)
+		}
+	case reflect.Map:
+		if v.IsNil() {
+			return
+		}
+		nm := reflect.MakeMap(v.Type())
+		for _, k := range v.MapKeys() {
+			nk := reflect.New(k.Type()).Elem()
+			nk.Set(k)
+			mapStrings(nk, f)
+			nv := reflect.New(v.Type().Elem()).Elem()
+			nv.Set(v.MapIndex(k))
+			mapStrings(nv, f)
+			nm.SetMapIndex(nk, nv)
+		}
+		if v.CanSet() {
+			v.Set(nm)
+		}
+	}
+}
+
+func toBytes(s string) string {
+	b := make([]byte, 0, len(s))
+	for _, r := range s {
+		b = append(b, byte(r))
+	}
+	return string(b)
+}
+func toRunes(s string) string {
+	r := make([]rune, 0, len(s))
+	for i := 0; i < len(s); i++ {
+		r = append(r, rune(s[i]))
+	}
+	return string(r)
+}
+
+// copyLayout: a deep copy made by hand of everything SubstituteParameters may touch (no JSON round trip: it would
+// replace bytes that are not valid UTF-8)
+func copyLayout(l intoto.Layout) intoto.Layout {
+	cs := func(x []string) []string {
+		if x == nil {
+			return nil
+		}
+		return append([]string{}, x...)
+	}
+	cr := func(x [][]string) [][]string {
+		if x == nil {
+			return nil
+		}
+		o := make([][]string, len(x))
+		for i := range x {
+			o[i] = cs(x[i])
+		}
+		return o
+	}
+	o := l
+	o.Keys = map[string]intoto.Key{}
+	for k, v := range l.Keys {
+		o.Keys[k] = v
+	}
+	o.Steps = append([]intoto.Step{}, l.Steps...)
+	for i := range o.Steps {
+		o.Steps[i].PubKeys = cs(o.Steps[i].PubKeys)
+		o.Steps[i].ExpectedCommand = cs(o.Steps[i].ExpectedCommand)
+		o.Steps[i].ExpectedMaterials = cr(o.Steps[i].ExpectedMaterials)
+		o.Steps[i].ExpectedProducts = cr(o.Steps[i].ExpectedProducts)
+		o.Steps[i].CertificateConstraints = append([]intoto.CertificateConstraint{}, o.Steps[i].CertificateConstraints...)
+		for j := range o.Steps[i].CertificateConstraints {
+			c := &o.Steps[i].CertificateConstraints[j]
+			c.DNSNames, c.Emails, c.Organizations, c.Roots, c.URIs = cs(c.DNSNames), cs(c.Emails), cs(c.Organizations), cs(c.Roots), cs(c.URIs)
+		}
+	}
+	o.Inspect = append([]intoto.Inspection{}, l.Inspect...)
+	for i := range o.Inspect {
+		o.Inspect[i].Run = cs(o.Inspect[i].Run)
+		o.Inspect[i].ExpectedMaterials = cr(o.Inspect[i].ExpectedMaterials)
+		o.Inspect[i].ExpectedProducts = cr(o.Inspect[i].ExpectedProducts)
+	}
+	return o
+}
+
+// rawInput turns a Bytes input into the byte strings it stands for
+func rawInput(in input) input {
+	if !in.Bytes {
+		return in
+	}
+	out := input{Names: in.Names, Dict: map[string]string{}}
+	out.Layout = copyLayout(in.Layout)
+	mapStrings(reflect.ValueOf(&out.Layout).Elem(), toBytes)
+	for k, v := range in.Dict {
+		out.Dict[k] = toBytes(v)
+	}
+	return out
 }
 
 var goodNames = []string{"a", "ab", "b", "A", "x-1", "_", "EDITOR", "a_b", "0", "abc"}
@@ -151,6 +265,17 @@ func genCase(r *lib.Rng) (input, string) {
 }
 
 func runImpl(in input) string {
+	if in.Bytes {
+		raw := rawInput(in)
+		l := copyLayout(raw.Layout)
+		return hex.EncodeToString([]byte(lib.Recover(func() string {
+			out, err := intoto.SubstituteParameters(l, raw.Dict)
+			if err != nil {
+				return "ERR"
+			}
+			return "OK" + lib.ShowLayout(out)
+		})))
+	}
 	// deep copy through JSON so that the implementation never sees shared arrays
 	var l intoto.Layout
 	b, _ := json.Marshal(in.Layout)
@@ -169,6 +294,10 @@ func runImpl(in input) string {
 // normalise: JSON round trip turns nil slices into nil, empty into empty; Show
 // does not distinguish them.
 func coqModel(in input) string {
+	if in.Bytes {
+		raw := rawInput(in)
+		return "(hex_enc (show_res show_layout (substitute " + lib.CoqLayout(raw.Layout) + " " + lib.CoqStrMap(raw.Names, raw.Dict) + ")))"
+	}
 	return "(show_res show_layout (substitute " + lib.CoqLayout(in.Layout) + " " + lib.CoqStrMap(in.Names, in.Dict) + "))"
 }
 
@@ -198,6 +327,14 @@ func oracleText(s string, dict map[string]string) string {
 	return sb.String()
 }
 func oracle(in input) string {
+	if in.Bytes {
+		raw := rawInput(in)
+		return hex.EncodeToString([]byte(oracleRaw(raw, true)))
+	}
+	return oracleRaw(in, false)
+}
+
+func oracleRaw(in input, byHand bool) string {
 	if len(in.Dict) == 0 {
 		return "OK" + lib.ShowLayout(in.Layout)
 	}
@@ -213,8 +350,12 @@ func oracle(in input) string {
 		}
 	}
 	var l intoto.Layout
-	b, _ := json.Marshal(in.Layout)
-	json.Unmarshal(b, &l)
+	if byHand {
+		l = copyLayout(in.Layout)
+	} else {
+		b, _ := json.Marshal(in.Layout)
+		json.Unmarshal(b, &l)
+	}
 	ss := func(xs []string) []string {
 		out := make([]string, len(xs))
 		for i, x := range xs {
@@ -309,6 +450,33 @@ func main() {
 				})
 				w.Put(lib.Case{Klass: fmt.Sprintf("history-same-object-%d", k), Input: lib.MustJSON(ink), Impl: impl, Oracle: oracle(ink), CoqModel: coqModel(ink)})
 			}
+		}
+		// byte strings that are not valid UTF-8 (a layout built by a program, not loaded from JSON): everything outside
+		// the markers - and every field that is not rewritten at all - must come back byte for byte
+		for i := 0; i < 12; i++ {
+			rr := r.Fork()
+			in, klass := genCase(rr)
+			if klass != "valid" && klass != "empty" {
+				continue
+			}
+			in.Bytes = true
+			inject := func(s string) string {
+				if rr.Chance(1, 2) {
+					return s
+				}
+				junk := []string{"\u00e9", "\u00ff\u00fe", "\u00c3", "caf\u00e9", "\u0080", "\u00ed\u00a0\u0080"}[rr.Intn(6)]
+				pos := 0
+				if len(s) > 0 {
+					pos = rr.Intn(len(s) + 1)
+				}
+				return s[:pos] + junk + s[pos:]
+			}
+			mapStrings(reflect.ValueOf(&in.Layout).Elem(), inject)
+			for k, v := range in.Dict {
+				in.Dict[k] = inject(v)
+			}
+			w.Put(lib.Case{Klass: "bytes-not-utf8", Input: lib.MustJSON(in), Impl: runImpl(in), Oracle: oracle(in), CoqModel: coqModel(in),
+				Trivial: len(in.Dict) == 0})
 		}
 		for i := 0; i < n; i++ {
 			in, klass := genCase(r.Fork())
